@@ -175,8 +175,10 @@ def ed_enc(ip, P):
         sym.FACTS.add(z3.Implies(P.t == c_O, t == sym.lit_bytes(b"\x01" + b"\x00" * 31)), "ed-enc-O (computed)")
         for (R,) in (sym.FACTS.items("edenc") if AUTO_ENC_INJ[0] else []):
             if not R.eq(P.t):
-                t2 = ed_encode_xy(ip, mkint(f_x(R)), mkint(f_y(R))).t
-                sym.FACTS.add(z3.Implies(t == t2, P.t == R), "T1:ed_enc_injective")
+                # equal encodings (byte strings) have equal values y + 2^255*(x mod 2) by the T0 facts on mkb/rev; equal
+                # values mean equal points by the Lean theorem behind the schema ed_enc_injective
+                from . import theory as _th
+                sym.FACTS.add(_th.instantiate("ed_enc_injective", [P.t, R]), "T1:ed_enc_injective")
     return SBytes(t)
 
 
